@@ -2,7 +2,7 @@
 
 PROP = dict(
     level="proof",
-    lean_modules=["PopsModel.Props.C06"],
+    lean_modules=["PopsModel.Props.C06", "PopsModel.Props.NonVacuous.Calendar"],
     theorems=["Pops.C06_seed_order", "Pops.C06_missing_seed_rejected", "Pops.C06_single_use_rejected",
               "Pops.C06_single_aliases", "Pops.C06_isolated", "Pops.C06_frame", "Pops.C06_unused_seed_irrelevant",
               "Pops.C06_no_stream_no_effect", "Pops.C06_table",
